@@ -31,7 +31,12 @@ TVReset == /\ l <= Len(Rec) /\ Rec[l].ev = "reset" /\ cur' = Rec[l].id /\ l' = l
 TVVal == /\ l <= Len(Rec) /\ Rec[l].ev = "val"
          /\ viol' = AddViol(viol, ValViol(Rec[l]), Rec[l].i)
          /\ judged' = judged + 1 /\ l' = l + 1 /\ UNCHANGED cur
-TVNext == TVReset \/ TVVal
+\* the process under test was killed by a signal while this case ran (recorded by the driver; `begin` marks the letter that
+\* was in progress): judged like any other observation -- whatever the property, an input that kills the process breaks it
+TVCrashAny == /\ l <= Len(Rec) /\ Rec[l].ev \in {"crash", "begin"}
+              /\ viol' = IF Rec[l].ev = "crash" THEN AddViol(viol, {"ANY/process-killed-by-signal-" \o Str(Rec[l].signal)}, Rec[l].id) ELSE viol
+              /\ l' = l + 1 /\ UNCHANGED <<judged, cur>>
+TVNext == TVReset \/ TVVal \/ TVCrashAny
 TVSpec == TVInit /\ [][TVNext]_tvars
 Post == PostOK
 Report == ReportAt(l, judged, viol)
